@@ -18,7 +18,8 @@ import (
 )
 
 type Options struct {
-	RepoDir    string // /repo
+	RepoDir    string // /repo (the tree whose sources are checked)
+	BuildDir   string // the directory the go.mod replace points to (default: RepoDir); differs when checking a snapshot of the repository
 	VerifDir   string // /verif
 	OutDir     string // scratch directory for rewritten files
 	NoShim     bool   // skip R1 (used for the free-running -race pass)
@@ -49,6 +50,51 @@ func Generate(o Options) (*Report, error) {
 		return nil, err
 	}
 	replace := map[string]string{}
+	build := o.BuildDir
+	if build == "" {
+		build = o.RepoDir
+	}
+	if build != o.RepoDir {
+		// checking a snapshot: every source file of the module is taken from the snapshot
+		seen := map[string]bool{}
+		filepath.Walk(o.RepoDir, func(p string, info os.FileInfo, err error) error {
+			if err != nil {
+				return nil
+			}
+			if info.IsDir() {
+				n := info.Name()
+				if n == ".git" || n == "examples" || n == "tests" || n == "bench" {
+					return filepath.SkipDir
+				}
+				return nil
+			}
+			if strings.HasSuffix(p, ".go") || strings.HasSuffix(p, "go.mod") || strings.HasSuffix(p, "go.sum") {
+				rel, _ := filepath.Rel(o.RepoDir, p)
+				replace[filepath.Join(build, rel)] = p
+				seen[rel] = true
+			}
+			return nil
+		})
+		filepath.Walk(build, func(p string, info os.FileInfo, err error) error {
+			if err != nil {
+				return nil
+			}
+			if info.IsDir() {
+				n := info.Name()
+				if n == ".git" || n == "examples" || n == "tests" || n == "bench" {
+					return filepath.SkipDir
+				}
+				return nil
+			}
+			if strings.HasSuffix(p, ".go") {
+				rel, _ := filepath.Rel(build, p)
+				if !seen[rel] {
+					replace[p] = "" // file does not exist in the snapshot
+				}
+			}
+			return nil
+		})
+	}
 	for _, e := range ents {
 		name := e.Name()
 		if e.IsDir() || !strings.HasSuffix(name, ".go") || strings.HasSuffix(name, "_test.go") {
@@ -67,7 +113,7 @@ func Generate(o Options) (*Report, error) {
 		if err := os.WriteFile(dst, out, 0o644); err != nil {
 			return nil, err
 		}
-		replace[src] = dst
+		replace[filepath.Join(build, "slog", name)] = dst
 		rep.Rewritten = append(rep.Rewritten, name)
 	}
 	if !o.NoExport {
@@ -84,7 +130,7 @@ func Generate(o Options) (*Report, error) {
 				return nil, err
 			}
 		}
-		replace[filepath.Join(slogDir, "zz_verif_export.go")] = exp
+		replace[filepath.Join(build, "slog", "zz_verif_export.go")] = exp
 	}
 	for k, v := range o.ExtraFiles {
 		replace[k] = v
